@@ -1352,11 +1352,13 @@ def check_c15(prog, pdesc, rs, r, res, ledger, case, handles):
                 # ---- flows
                 ein = 0.0
                 eout = 0.0
+                mag = 0.0
                 for k in ks:
                     b4 = total_unit(ledger[k].get(nme), unit)
                     af = total_unit(ledger[k + 1].get(nme), unit)
                     if b4 is None:
                         b4 = 0.0 * af
+                    mag = max(mag, float(numpy.max(numpy.abs(af))), float(numpy.max(numpy.abs(b4))))
                     d = af - b4
                     ein = ein + numpy.maximum(d, 0)
                     eout = eout + numpy.maximum(-d, 0)
@@ -1375,7 +1377,9 @@ def check_c15(prog, pdesc, rs, r, res, ledger, case, handles):
                     M.violate(['C15'], 'LEDGER', f'C15:container_flows_raised:{type(gexc).__name__}:{"plate" if plate else "container"}',
                               dict(detail, exc=repr(gexc)[:200]))
                     continue
-                tol = half + noise_u          # flows are rounded once, at the end
+                # flows are rounded once, at the end; a flow is a difference of totals (here and in the library): with litres in the
+                # vessel the last digits of a double are worth more than a storage quantum
+                tol = half + noise_u + 32 * 2.3e-16 * mag * len(ks)
                 gi, go = numpy.asarray(got['in'], dtype=float), numpy.asarray(got['out'], dtype=float)
                 bad = None
                 if numpy.shape(gi) != numpy.shape(ein) and plate:
